@@ -20,7 +20,8 @@ META = {
 
 WEIGHTS = [1, 2, 3, 10 ** 6, F(1, 3), F(7, 3), F(1, 10 ** 6), F(999999, 10 ** 6), F(10 ** 6 - 1, 10 ** 6 + 0 - 1), 0.5, 0.1,
            1 / 3, 0.333, 2.5, 1e-3, 123456.789, 1e6 + 0.5, F(5, 2), 0.25, 7,
-           10 ** 18, 2 ** 53 + 1, 2 ** 64 + 3, 1e18, 2.0 ** 53 + 2, 1e9 + 0.5, 123456789.125, F(10 ** 18 + 1, 1)]
+           10 ** 18, 2 ** 53 + 1, 2 ** 64 + 3, 1e18, 2.0 ** 53 + 2, 1e9 + 0.5, 123456789.125, F(10 ** 18 + 1, 1),
+           0, 0.0, F(0)]  # zero-weight ballots: counted as ballots, their candidates are not "cast"
 SCORES = [0, 0.0, 1, 2, 0.5, 0.1, 1 / 3, F(1, 3), F(0), F(7, 2), 1e-7, F(1, 10 ** 7), 3.75, F(1, 10 ** 6),
           10 ** 9, 2 ** 53 + 1, 1e15, 1e9 + 0.25]
 
@@ -214,6 +215,20 @@ def check_profile(ctx, case, all_orders):
         return
     if tuple(p.candidates) != tuple(cs):
         ctx.fail("profile.candidates differs from the given list", case, {})
+        return
+    # the derived fields are not the caller's to set: handed wrong values, the constructor either refuses or recomputes them
+    wrong = rnd.choice([{"num_ballots": 99}, {"num_ballots": 0}, {"total_ballot_wt": F(5, 3)}, {"total_ballot_wt": F(0)},
+                        {"candidates_cast": ("zz",)}, {"candidates_cast": ()},
+                        {"num_ballots": len(ballots) + 1, "total_ballot_wt": F(1), "candidates_cast": tuple(cs)}])
+    ow = observe(lambda: PreferenceProfile(ballots=tuple(ballots), candidates=tuple(cs), **wrong))
+    ctx.count("derived_fields_handed_in")
+    if ow.ok and not derived_ok(ow.value):
+        ctx.fail("a profile constructed with derived fields handed in reports them instead of what its ballots imply", case,
+                 {"handed_in": {k: str(v) for k, v in wrong.items()}, "num": ow.value.num_ballots, "tot": str(ow.value.total_ballot_wt),
+                  "cast": sorted(map(str, ow.value.candidates_cast))})
+        return
+    if not ow.ok and ow.etype not in ("ValueError", "TypeError", "ValidationError"):
+        ctx.fail(f"constructing a profile with derived fields handed in raised {ow.etype}", case, {"msg": str(ow.exc)[:200]})
         return
     for f, v in [("ballots", ()), ("candidates", ("zz",)), ("total_ballot_wt", F(9)), ("num_ballots", 99),
                  ("candidates_cast", ("zz",)), ("df", None)]:
